@@ -170,7 +170,7 @@ def run_sessions(d, module_name, funcs, segments, compress=False, mmap_mode=None
         cf, of = os.path.join(d, f"seg{si}.json"), os.path.join(d, f"out{si}.json")
         with open(cf, "w") as f:
             json.dump(dict(module=module_name, funcs=[dict(name=x["name"], kind=x["kind"], ignore=x["ignore"]) for x in funcs],
-                           steps=seg["steps"], dir=d, compress=compress, recache=recache, verbose=verbose,
+                           steps=seg["steps"], dir=d, compress=compress, recache=recache, verbose=verbose, overlap=True,
                            location_style=(location_styles or ["plain"])[si % len(location_styles or ["plain"])]), f)
         r = harness.run_py([SESSION, cf, of], timeout=timeout, hashseed=seg.get("hashseed", "0"), result_file=of, cwd=d)
         outs.append((r["result"], r))
